@@ -14,6 +14,9 @@ CLAUSE = ("(RF-WHO) the export modules (text, html, vtx, templ, gfx: ppm/png/xpm
           "through the output cursor is dominated by a test that at least the bytes stored remain before buf + size; "
           "vbi_draw_vt_page_region / vbi_draw_cc_page_region return before any drawing for pixel formats other than the two "
           "supported ones.")
+CLAUSE = CLAUSE + (" vbi_export_mem: when the write layer moved to a heap buffer (target ALLOC) the data is copied back into the "
+                   "caller's buffer before the heap buffer is freed; in vbi_draw_vt/cc_page_region every additive term of a canvas "
+                   "pointer advance depends on the pixel size (canvas_type) or on the row stride.")
 NOT_DECIDED = ("pixel rectangle arithmetic under arbitrary rowstride, character-for-character fidelity of the text output, "
                "byte identity of the targets as values.")
 
@@ -74,6 +77,8 @@ def run(ctx, run):
     _vprintf(ctx, run, P.need("vbi_export_vprintf", EXPORT))
     _print_region(ctx, run)
     _pixfmt(ctx, run)
+    _mem_copy_back(ctx, run, P.need("vbi_export_mem", EXPORT))
+    _pixel_size_terms(ctx, run)
 
 
 def _grow_before_store(ctx, run):
@@ -300,3 +305,106 @@ def _pixfmt(ctx, run):
         else:
             run.holds("RF-DOM", key, "with fmt different from both supported formats no drawing call is reachable (%d draw site(s))"
                       % len(draws), "%s:%d" % (f.file, f.line))
+
+
+def _mem_copy_back(ctx, run, f):
+    """The write layer may switch from the caller's buffer to a heap buffer although the output
+    fits after all (vprintf asks for len + 1): what was written after the switch exists only in the
+    heap buffer, so it must be copied into the caller's buffer before that one is freed."""
+    run.touch(f)
+    frees = [(b, i) for b, i in flow.all_events(f) if f.exprs[i]["k"] == "call" and f.exprs[i].get("callee") == "free"
+             and "buffer.data" in ex.pretty(f, f.exprs[i]["c"][0])]
+    if not frees:
+        raise AnalysisBroken("vbi_export_mem: the free of the heap buffer was not found")
+    buf = f.params[1]["name"]
+    for b, i in frees:
+        if not any(a.cmp_const("==", "vbi_export.target", ctx.prog.enum_consts.get("VBI_EXPORT_TARGET_ALLOC")) or
+                   ("target" in repr(a) and "ALLOC" in repr(a)) for a in atoms.atoms_at(f, i)):
+            continue
+        # only the success path: dominated by the TRUE edge of the module's export () call
+        succ = False
+        for src, lab, cond in flow.dominating_edges(f, b):
+            if lab == "T" and cond is not None and any(f.exprs[n]["k"] == "call" and "fn" in f.exprs[n] for n in ex.walk(f, cond)):
+                succ = True
+        if not succ:
+            continue
+        key = "RF-DOM:vbi_export_mem:copy-back-before-free"
+        ok = False
+        for b2, j in flow.all_events(f):
+            e = f.exprs[j]
+            if e["k"] == "call" and e.get("callee") in ("memcpy", "memmove") and len(e["c"]) >= 2:
+                d = atoms.Operand(f, e["c"][0])
+                s_ = ex.pretty(f, e["c"][1])
+                if buf in d.locals and "buffer.data" in s_ and flow.dominates(f, b2, b) and \
+                        (b2 != b or flow.elem_pos(f)[j][1] < flow.elem_pos(f)[i][1]):
+                    ok = True
+        if ok:
+            run.holds("RF-DOM", key, "memcpy (%s, e->buffer.data, ...) dominates the free of the heap buffer on the success path" % buf,
+                      ex.loc(f, i))
+        else:
+            run.violation("RF-DOM", key, "on the success path the heap buffer the write layer switched to is freed without copying "
+                          "its content back into the caller's buffer: when the output fits exactly (the switch is triggered by "
+                          "vprintf's len + 1 request) the last bytes of the export are missing from the buffer although the call "
+                          "reports success", ex.loc(f, i), witness={"function": f.name})
+
+
+def _terms(f, node, out):
+    j = ex.skip(f, node)
+    e = f.exprs[j]
+    while e["k"] == "cast":
+        j = ex.skip(f, e["c"][0])
+        e = f.exprs[j]
+    if e["k"] == "bin" and e["op"] in ("+", "-"):
+        _terms(f, e["c"][0], out)
+        _terms(f, e["c"][1], out)
+    else:
+        out.append(j)
+
+
+def _pixel_size_terms(ctx, run):
+    P = ctx.prog
+    n = 0
+    for name in ("vbi_draw_cc_page_region", "vbi_draw_vt_page_region"):
+        f = P.need(name, "src/exp-gfx.c")
+        run.touch(f)
+        # definitions of locals used as advances
+        defs = {}
+        for b, i in flow.all_events(f):
+            for lhs, var, op, rhs in flow.stores(f, i):
+                if rhs is None or op != "=":
+                    continue
+                nm = var["name"] if var is not None else None
+                if lhs is not None:
+                    l = f.exprs[ex.skip(f, lhs)]
+                    if l["k"] == "ref":
+                        nm = l["name"]
+                if nm:
+                    defs.setdefault(nm, []).append(rhs)
+        adv = []
+        for b, i in flow.all_events(f):
+            e = f.exprs[i]
+            if e["k"] == "asg" and f.exprs[ex.skip(f, e["c"][0])].get("name") == "canvas":
+                ts = []
+                _terms(f, e["c"][1], ts)
+                for t in ts:
+                    o = atoms.Operand(f, t)
+                    if o.locals == {"canvas"}:
+                        continue
+                    if len(o.locals) == 1 and not o.fields and list(o.locals)[0] in defs and f.exprs[t]["k"] == "ref":
+                        for d in defs[list(o.locals)[0]]:
+                            _terms(f, d, adv)
+                    else:
+                        adv.append(t)
+        for t in adv:
+            o = atoms.Operand(f, t)
+            n += 1
+            key = "RF-DEP:%s:advance-term:%s" % (name, "+".join(sorted(o.locals)) or "const")
+            if "canvas_type" in o.locals or "rowstride" in o.locals:
+                run.holds("RF-DEP", key, "canvas advance term `%s` scales with the pixel size / row stride" % ex.pretty(f, t)[:60],
+                          ex.loc(f, t), nontrivial=False)
+            else:
+                run.violation("RF-DEP", key, "the canvas pointer advance term `%s` does not depend on the pixel size of the requested "
+                              "format (canvas_type) nor on the row stride: for the other pixel format the cursor lands outside the "
+                              "requested rectangle from the second text row on" % ex.pretty(f, t)[:70], ex.loc(f, t),
+                              witness={"function": name, "term": ex.pretty(f, t)})
+    run.floor("canvas advance terms in the region renderers", n, 4)
